@@ -79,7 +79,7 @@ def main():
         n = rnd.choice([64, 256, 1024, max_len])
         with open(os.path.join(corpus, f"seed{i:02d}"), "wb") as f:
             f.write(rnd.randbytes(min(n, max_len)))
-    argv = [sys.argv[0], f"-runs={runs}", f"-seed={fseed}", f"-max_len={max_len}", "-len_control=0",
+    argv = [sys.argv[0], f"-runs={runs}", f"-seed={fseed}", f"-max_len={max_len}", "-len_control=0", f"-rss_limit_mb={int(shard.get('rss_limit_mb', 6144))}",
             "-print_final_stats=0", "-verbosity=0", corpus]
     atheris.Setup(argv, one)
     flush()
